@@ -79,10 +79,15 @@ def strategy(tier):
 
     fl = lambda a, b: st.floats(a, b, allow_nan=False, allow_infinity=False)  # noqa: E731
 
+    shared_rng = st.shared(st.integers(0, 2**32 - 1).map(np.random.default_rng), key="rng")
+
     def pick(draw, options):
-        # categorical choice through a wide integer: sampled_from / one_of favour their first entries noticeably when a
-        # shard only gets ~100 examples (measured: 46% instead of 17% for the first of six)
-        return options[draw(st.integers(0, 9999)) % len(options)]
+        # Categorical choice.  Hypothesis' integers / sampled_from / one_of are far from uniform when a shard only gets
+        # ~50-100 examples (measured: 18% of integers(0, 2**32) are exactly 0, 50% are = 0 mod 3), so the index is offset by
+        # a numpy Generator seeded with a Hypothesis-drawn integer: uniform for every non-degenerate seed, still
+        # shrinkable (seed -> 0, index -> 0).
+        rng = draw(shared_rng)
+        return options[(draw(st.integers(0, len(options) - 1)) + int(rng.integers(len(options)))) % len(options)]
 
     @st.composite
     def grid_parts(draw, nmin=2, nmax=40):
@@ -175,7 +180,11 @@ def strategy(tier):
             deg = draw(st.sampled_from([0, 0, -1, -2, -7]))
         return {"kind": "reject", "why": why, "via": via, "log": log, "grid": grid, "deg": deg}
 
-    return st.integers(0, 9999).flatmap(lambda i: reject() if i % 6 == 0 else basis())
+    @st.composite
+    def any_case(draw):
+        return draw(reject()) if pick(draw, [0, 1, 1, 1, 1, 1]) == 0 else draw(basis())
+
+    return any_case()
 
 
 # --------------------------------------------------------------------------- oracle
